@@ -7,6 +7,8 @@ CONSTANTS
   RelLens = FALSE
   MaxWrites = 4
   WriterFollowsOwnSCS = TRUE
-INVARIANTS NoDesync PrefixOk InFollowsOut Independent AllDelivered
+  HsOrder = "serial"
+  HsReadExact = TRUE
+INVARIANTS NoDesync PrefixOk InFollowsOut Independent AllDelivered HandshakeBytes HsExact NoByteLost SessionAfterHandshake
 PROPERTY AppendOnly
 CHECK_DEADLOCK FALSE
